@@ -458,6 +458,25 @@ namespace c17
                 {
                     validatedOnly = false;
                     og::PathHybridization hy(c.w->si);
+                    if (op.geti("extra") % 2 == 1)
+                    {
+                        // the object was used for an earlier batch and cleared (what ParallelPlan does between queries)
+                        hy.recordPath(std::make_shared<og::PathGeometric>(before), false);
+                        for (auto it = alternatives.rbegin(); it != alternatives.rend(); ++it)
+                        {
+                            auto shifted = std::make_shared<og::PathGeometric>(**it);
+                            if (shifted->getStateCount() > 2)
+                            {
+                                ob::State *gone = shifted->getStates()[1];
+                                shifted->getStates().erase(shifted->getStates().begin() + 1);
+                                c.w->si->freeState(gone);
+                            }
+                            hy.recordPath(shifted, false);
+                        }
+                        hy.computeHybridPath();
+                        hy.clear();
+                        res.probes["hybridization-object-reused-after-clear"]++;
+                    }
                     double best = HUGE_VAL;
                     for (auto &alt : alternatives)
                     {
